@@ -92,19 +92,30 @@ func (r *responseStorer) StoreResponse(
 		ResponseID:   responseID,
 	}
 
+	sameVariant := func(ref *ResponseRef) bool {
+		return ref != nil && ref.ResponseID == responseID &&
+			maps.Equal(ref.VaryResolved, varyResolved)
+	}
 	if refIndex < 0 || refIndex >= len(refs) {
 		// No usable position from the matcher (e.g. Vary: * never matches): reuse the reference
 		// that already describes this variant, so that the index does not grow per request.
-		refIndex = slices.IndexFunc(refs, func(ref *ResponseRef) bool {
-			return ref != nil && ref.ResponseID == responseID &&
-				maps.Equal(ref.VaryResolved, varyResolved)
-		})
+		refIndex = slices.IndexFunc(refs, sameVariant)
 	}
 
 	if refIndex < 0 || refIndex >= len(refs) {
 		refs = append(refs, refEntry) // New response reference
 	} else {
 		refs[refIndex] = refEntry // Update existing response reference
+		// The replaced reference may have described another variant (the origin changed its Vary):
+		// drop any other reference to the variant just written, so that it is listed once.
+		kept := refs[:0]
+		for i, ref := range refs {
+			if i != refIndex && sameVariant(ref) {
+				continue
+			}
+			kept = append(kept, ref)
+		}
+		refs = kept
 	}
 
 	return r.cache.SetRefs(urlKey, refs)
